@@ -215,9 +215,10 @@ impl<'a, T> DoubleEndedIterator for RowsMut<'a, T> {
             self.v = &mut [];
         } else {
             let tmp = mem::take(&mut self.v);
-            // adj < self.v.len(), so no check required
+            let new_len = tmp.len() - adj;
+            // adj < tmp.len(), so no check required
             unsafe {
-                self.v = tmp.get_unchecked_mut(..self.v.len() - adj);
+                self.v = tmp.get_unchecked_mut(..new_len);
             }
         }
         self.next_back()
@@ -465,9 +466,10 @@ impl<'a, T> DoubleEndedIterator for ColMut<'a, T> {
             self.v = &mut [];
         } else {
             let tmp = mem::take(&mut self.v);
-            // adj <= self.v.len(), so no check required
+            let new_len = tmp.len() - adj;
+            // adj < tmp.len(), so no check required
             unsafe {
-                self.v = tmp.get_unchecked_mut(..self.v.len() - adj);
+                self.v = tmp.get_unchecked_mut(..new_len);
             }
         }
         self.next_back()
